@@ -140,7 +140,7 @@ WHAT = {2: "the extended pipeline model rejects a frag_ok2 design on which the i
 def run_tie(run, tier, seed, replay=None):
     quick = tier == "quick"
     corp = corpus()
-    designs = corp + nested_designs(seed, 110 if quick else 1500)
+    designs = corp + nested_designs(seed, 110 if quick else 700)
     outs = core.run_worker_sharded("c01", [dict(design=d, spice=False) for d in designs])
     cases = [c01e.c_case(d, o, None) for d, o in zip(designs, outs)]
     res = dict(core.coq_eval_cases("C01", "nested", IMPORTS, "c01e_case", cases,
